@@ -13,6 +13,8 @@
 //   k async of a block object created with DISPATCH_BLOCK_BARRIER
 //   p async_f then wait (scheduler-level) until that item has finished ("ping-pong")
 //   U suspend  R resume  (C06)
+//   x async an item that blocks on a semaphore   y async an item that releases every x item
+//     (pool exhaustion: the x items park every pool thread; y is queued behind them)
 // program flags (before the queues, each followed by ';'):
 //   gate;   item bodies block on a gate opened only after every client thread has
 //           returned from all of its submissions (async must never wait for an item)
